@@ -72,6 +72,24 @@ CHECKS = {
        "histories that create sticky answers / owed ACKs / ADR counts, comparing every later output and state snapshot.",
   note=COMMON_NOTE,
   tech="machine-checked proof in Coq (reject = identity, state equality) + twin-run (2-safety) differential runs on the implementation", ref="6 C07"),
+ "C08": dict(
+  text="Coq theorems (Props/C08.v) about the model of handle_downlink_macs, for all states and command bytes: RXParamSetupReq: answer 0b111 iff frequency in band, RX1 offset within "
+       "the region's limit and RX2 data rate defined (15 = keep), then exactly those three fields change, otherwise the configuration is unchanged; RXTimingSetupReq sets exactly the "
+       "RX1 delay (0,1 -> 1 s); DlChannelReq / NewChannelReq: any NAK bit => channel plan identical, full ACK => exactly the commanded channel change; LinkADRReq blocks: one identical "
+       "answer per request, 0b111 => data rate, power and mask applied exactly (15 = keep), otherwise configuration and plan untouched, an RFU ChMaskCntl never ACKed; answers are whole "
+       "commands within 15 bytes, queued in request order, and once one is dropped all later ones are dropped; sticky answers = exactly the whole DlChannelAns/RXParamSetupAns/"
+       "RXTimingSetupAns. Tied to the code by model/implementation histories enumerating the field values of the six handled requests per region (FOpts and port 0, blocks, "
+       "mixtures, sequences of downlinks) with state snapshots, and an independent oracle decoding the next two uplinks (order, copies, sticky) and checking ACK => effect / NAK => unchanged.",
+  note=COMMON_NOTE + "Regional validity (band limits, defined data rates, offset limits) in the theorems refers to the tables regenerated from /repo by tools/rs2v/regiontables.py; TX power index ranges likewise. NbTrans is not implemented by the stack and not judged.",
+  tech="machine-checked proof in Coq (per-command atomicity lemmas) + translator-regenerated regional tables + exhaustive-field MAC-history correspondence + independent answer/effect oracle", ref="6 C08"),
+ "C12": dict(
+  text="Coq theorems (Props/C12.v): the session model refines the abstract ADR/ACK machine of Spec/AdrSpec.v: every data uplink is the byte-exact spec frame of a description carrying the "
+       "session address, the requested message type, the current counter and (ADR, ADRACKReq, ACK) = the spec's bits (ADRACKReq iff ADR on, >= 64 uplinks since an accepted downlink "
+       "and a lower region-defined rate exists; ACK consumed by that uplink); concluding an uplink without downlink is exactly the spec's step (count +1, data rate to the next lower "
+       "defined rate at 96, 128, ... and never otherwise, nothing else changes); next_lower is the greatest defined rate below (skips gaps); an accepted downlink zeroes the count and a "
+       "confirmed one owes exactly one ACK. Tied to the code by histories of 140..600 uplinks per session in all regions compared step by step, plus an independent python reference machine.",
+  note=COMMON_NOTE,
+  tech="machine-checked refinement proof in Coq (session model vs abstract ADR/ACK spec) + long-history correspondence + independent reference machine", ref="6 C12"),
  "C15": dict(
   text="Coq theorems: every driver's LDRO decision and the bit programmed into the chip equal the airtime calculator's, and that "
        "decision is 'on' exactly when 2^SF*10^6 >= 16384*BW (exact arithmetic) for all SF 5..12 x all 10 bandwidths. The models are "
